@@ -351,9 +351,40 @@ def check_c16(rng, n):
                 c16_realtime_cold(rng, res)
             if i % 4 == 1:
                 c16_one_unit_run(rng, res)
+            if i % 4 == 2:
+                c16_fractional_limits(rng, res)
     finally:
         drv.close()
     return res
+
+
+def c16_fractional_limits(rng, res):
+    """Buffer rate limits that are not whole per second (binary-exact): they are multiplied by the unit like every
+    other rate and NOT rounded (3.5 /s stays 3.5 under 'seconds' and becomes 210 under 'minutes')."""
+    from topsim.core.config import Config
+    unit = rng.choice(["seconds", "minutes", "hours", 30, 7, 1, 2])
+    m = {"seconds": 1, "minutes": 60, "hours": 3600}.get(unit, unit)
+    hr = rng.randint(3, 12) + rng.choice([0.5, 0.25, 0.75])
+    cr = rng.randint(1, 12) + rng.choice([0.5, 0.25, 0.75])
+    spec = {"machines": [{"id": "m0", "flops": 10, "bw": 2}], "system_bandwidth": 2, "total_arrays": 4, "max_ingest": 1,
+            "observations": [{"name": "a", "start": 0, "duration": m, "demand": 1, "rate": 1, "ingest_demand": 1,
+                              "workflow": {"nodes": [{"id": 0, "comp": 10}], "edges": []}}],
+            "hot": {"capacity": 10 ** 6, "rate": hr}, "cold": {"capacity": 10 ** 6 + 5, "rate": cr},
+            "timestep": unit, "timestep_explicit": True}
+    d = simgen.workdir("cfg")
+    try:
+        hot, cold = Config(simgen.write_case(spec, d)).parse_buffer_config()
+    finally:
+        simgen.rm_workdir(d)
+    res["evaluations"] += 1
+    res["nontrivial"] += 1
+    bump(res["dist"], "fractional-limits:%s" % unit)
+    if Fraction(hot[0].max_ingest_data_rate) != Fraction(hr) * m or Fraction(cold[0].max_data_rate) != Fraction(cr) * m:
+        res["violations"].append({"prop": "C16", "kind": "unit-scaling", "sig": "unit-scaling:fractional-limits",
+                                  "detail": "limits %s /s and %s /s under unit %s parsed as %s and %s (want %s and %s)" % (
+                                      hr, cr, unit, fr(hot[0].max_ingest_data_rate), fr(cold[0].max_data_rate),
+                                      Fraction(hr) * m, Fraction(cr) * m),
+                                  "input": {"unit": unit, "hot_rate": hr, "cold_rate": cr}})
 
 
 def c16_one_unit_run(rng, res):
@@ -477,7 +508,7 @@ def c06_from_workflow_file(rng, res):
     fractions just below / above a multiple of the machine's speed): every task runs for
     max(1, floor(demand in the FILE / speed), floor(data / bandwidth)) steps - what the planner hands on must be
     the demand, not a rounded copy of it."""
-    cpu, bw = rng.choice([2, 4, 5, 8, 10]), rng.choice([1, 2, 4])
+    cpu, bw = rng.choice([2, 4, 5, 8, 10]), rng.choice([1, 2, 4, 0.5, 0.25])     # (a link may move less than one unit a step)
     nodes = []
     for j in range(rng.randint(1, 3)):
         k = rng.randint(1, 4)
